@@ -319,7 +319,7 @@ def coq(e, names, lits, sums=None):
         if not sums or e[1] not in sums:
             raise Untranslatable("sum over %s" % e[1])
         lst, binder = sums[e[1]]
-        return "(sumL (map (fun %s => %s) %s))" % (binder, r(e[2]), lst)
+        return "(sumL O (map (fun %s => %s) %s))" % (binder, r(e[2]), lst)
     raise Untranslatable("cannot print %s" % t)
 
 
